@@ -531,4 +531,4 @@ def run(ctx):
     ctx.cov['rule'] = ('every script (failAt, completeAt, match per inspector) of the bounded pipe model x source flavour x '
                        'expected format, replayed on the real InspectWrapper with stub inspectors and compared with the set of '
                        'outcomes the model admits (inspector order is a set order); real inspectors on real content with a fault '
-                       'injected at (inspector, read index) recorded at the grain start/feed/end and validated by Trace_InspectWrapper')
+                       'injected at (inspector, read index) (streams up to 2.4 MB read 1.5 MiB at a time) recorded at the grain start/feed/end, calls to an already failed inspector logged separately, and validated by Trace_InspectWrapper')
